@@ -98,10 +98,15 @@ func checkTiming(r *R, sp engSpec, res *engResult) {
 	cancelled := false
 	var firstCall time.Duration = -1
 	nshot := 0
+	// the profile starts (lazily) inside the first call on the schedule, not before that call began. The log is in the
+	// order in which the calls returned: a call that began first may have been stalled inside and be logged later, so the
+	// earliest begin over all calls is taken
 	for _, e := range res.Evs {
-		if (e.Kind == "left" || e.Kind == "next") && e.Src == "rps" && firstCall < 0 {
-			firstCall = e.CallT // the profile starts with the first call on it, not before that call began
+		if (e.Kind == "left" || e.Kind == "next") && e.Src == "rps" && (firstCall < 0 || e.CallT < firstCall) {
+			firstCall = e.CallT
 		}
+	}
+	for _, e := range res.Evs {
 		if e.Kind == "shoot-in" && !sp.PerInstance && firstCall >= 0 && (sp.RPS.RefOffs != nil || sp.RPS.Tail > 0) {
 			// the k-th shot of the run against the k-th operation of the configured profile (reference arithmetic)
 			due, what := time.Duration(-1), ""
